@@ -54,6 +54,10 @@ class IrGenerator:
             temp_replacement = IdMap()
 
             def find_temporaries(obj, access: AccessFlags):
+                assert not isinstance(
+                    obj, Variable
+                ), "variables cannot be used in always expressions"
+
                 if isinstance(obj, Temporary):
                     parent = obj._root
 
